@@ -20,7 +20,15 @@ func HashName(label string, ha uint8, iter uint16, salt string) string {
 	wireSalt = wireSalt[:n]
 
 	name := make([]byte, 255)
-	off, err := PackDomainName(strings.ToLower(label), name, 0, nil, false)
+	// Only US-ASCII letters are case folded (RFC 4034, section 6.2), on bytes:
+	// the label may hold arbitrary octets.
+	lower := []byte(label)
+	for i, c := range lower {
+		if c >= 'A' && c <= 'Z' {
+			lower[i] = c + ('a' - 'A')
+		}
+	}
+	off, err := PackDomainName(string(lower), name, 0, nil, false)
 	if err != nil {
 		return ""
 	}
